@@ -31,6 +31,9 @@ FAMILIES = {
     "H": [("s1", "a", 1.0, "b", 1.0, "u1"), ("s2", "a", 1.0, "b", 1.0, "u1"), ("s3", "a", 1.0, "b", 1.0, "u1"),
           ("s3", "a", 1.0, "", 0.0, "u1"), ("s1", "a", 1.0, "c", 1.0, "u1"), ("s3", "", 0.0, "b", 1.0, "u1"),
           ("s2", "b", 1.0, "c", 1.0, "u1")],
+    # twelve samples with one or two experiments each: a generator that makes one plate per sample makes more than ten plates
+    # (plate names "..._10", "..._11" next to "..._1")
+    "M": [("s%02d" % (i % 12), "a", 1.0 + i // 12, "b", 1.0, "u%d" % (i % 3)) for i in range(14)],
     # like A but with a vehicle-only (all-control) experiment and a zero-dose treatment among the unobserved rows
     "E": [("s1", "a", 1.0, "b", 1.0, "obs"), ("s1", "", 0.0, "", 0.0, "u1"), ("s1", "b", 1.0, "c", 1.0, "u1"),
           ("s2", "a", 1.0, "b", 1.0, "u2"), ("s2", "c", 0.0, "a", 1.0, "u2"), ("s1", "a", 1.0, "c", 1.0, "u3")],
@@ -130,7 +133,7 @@ def match_rows(ctx, out, rows, tags):
     return idx, attrs_ok, t
 
 
-def fixture_values(R=13):
+def fixture_values(R=16):
     import random
     out = []
     for seed in (1, 2, 3):
